@@ -655,3 +655,23 @@ func VerifC16_q_podEventDuringPolicyResync() {
 	verifReach("policy-resync-inside-pod-event")
 	w.checkSemantics()
 }
+
+// BOUND: same cluster and flows; the node is synchronised for 1..2 policies (shapes of the convergence harness); galaxy stops; while it is down the policies are deleted (all of them, or all but one); galaxy starts again (a new manager over the same kernel state, pod informer not started while there is no policy) and runs its start-up synchronisation. The verdicts must match the reference for the policies that are left (no policy: every flow is accepted)
+func VerifC16_q_afterRestartWithFewerPolicies() {
+	w := vSemWorld()
+	a := vShapeOf("np-a")
+	w.c.policies = []*networkv1.NetworkPolicy{a}
+	if nondetBool() {
+		w.c.policies = append(w.c.policies, vShape("np-b", 4))
+	}
+	w.syncAll()
+	w.restartManager()
+	if nondetBool() && len(w.c.policies) == 2 {
+		w.c.policies = w.c.policies[1:]
+	} else {
+		w.c.policies = nil
+	}
+	w.syncAll()
+	verifReach("restarted-with-fewer-policies")
+	w.checkSemantics()
+}
